@@ -29,7 +29,13 @@ def gen_path(R):
     cur = start
     for _ in range(r.randint(2, 6)):
         k = r.choice(["move", "rapid", "moveabs", "rapidabs", "polyline", "arc", "circle", "helix", "spiral", "thread",
-                      "arc_radius", "spline", "ctx", "ctxraise", "parametric", "ctxnest", "dwellctx"])
+                      "arc_radius", "spline", "ctx", "ctxraise", "parametric", "ctxnest", "dwellctx", "ctxshape", "ctxshape"])
+        wrap = None
+        if k == "ctxshape":
+            # an interpolated shape traced inside a mode context (the context may or may not switch the mode)
+            wrap = r.choice(["abs", "rel"])
+            k = r.choice(["arc", "circle", "helix", "spiral", "thread", "arc_radius", "spline", "polyline"])
+        n_before = len(segs)
         if k in ("move", "rapid", "moveabs", "rapidabs"):
             t = tuple(fr(r) if r.random() < 0.7 else None for _ in range(3))
             if all(v is None for v in t):
@@ -83,6 +89,8 @@ def gen_path(R):
             t = (fr(r), fr(r), fr(r))
             segs.append(("ctx", t, r.choice(["abs", "rel"])))   # a move inside a mode context
             cur = t
+        if wrap and len(segs) == n_before + 1:
+            segs[-1] = ("ctxshape", segs[-1], wrap)
     return start, segs, r.choice(["cw", "ccw"]), Fraction(r.choice([16, 32, 64]), G)
 
 
@@ -101,8 +109,22 @@ def lines_for(path, relative: bool):
     def pt(vals):
         return " ".join(f"{a}={show(v)}" for a, v in zip("xyz", vals) if v is not None)
 
-    for k, t, extra in segs:
-        if k in ("move", "rapid"):
+    todo = []
+    for seg in segs:
+        if seg[0] == "ctxshape":
+            todo += [("_enter", seg[2], None), seg[1] + (seg[2] == "rel",), ("_exit", None, None)]
+        else:
+            todo.append(seg)
+    for item in todo:
+        k, t, extra = item[:3]
+        outer = relative
+        if len(item) > 3:
+            relative = item[3]          # the shape is requested in the context's mode
+        if k == "_enter":
+            out.append("enter " + t)
+        elif k == "_exit":
+            out.append("exit")
+        elif k in ("move", "rapid"):
             out.append(f"{k} {pt(arg(t, relative))}")
             cur = [c if v is None else v for c, v in zip(cur, t)]
         elif k in ("moveabs", "rapidabs"):
@@ -170,6 +192,7 @@ def lines_for(path, relative: bool):
             out.append("move " + pt(arg(t, inner_rel)))
             out.append("exit")
             cur = list(t)
+        relative = outer
     return out
 
 
@@ -236,7 +259,7 @@ def run_case(R, path, label):
                            {k: parse_record(ir).get(k) for k in bad}, {k: parse_record(mr).get(k) for k in bad}, step=i)
                 break
     R.case({"absolute": la, "relative": lb, "motions": len(sa)}, nontrivial=len(sa) >= 3)
-    R.count(label, *["seg:" + s[0] for s in path[1]])
+    R.count(label, *["seg:" + (s[0] if s[0] != "ctxshape" else f"ctxshape:{s[1][0]}") for s in path[1]])
 
 
 def run(R: core.Run):
